@@ -384,6 +384,10 @@ func (oc *outputController) WireMonitor(ctx context.Context, m rio.Monitor) rio.
 						// pass
 					}
 				case <-ctx.Done():
+					// Keep receiving (and discarding) until the operation closes the channel:
+					//  it sends on it without looking at the context, and would wait for us forever.
+					for range oc.monChan {
+					}
 					return
 				}
 			}
@@ -404,6 +408,10 @@ func (oc *outputController) WireMonitor(ctx context.Context, m rio.Monitor) rio.
 						panic(err)
 					}
 				case <-ctx.Done():
+					// Keep receiving (and discarding) until the operation closes the channel:
+					//  it sends on it without looking at the context, and would wait for us forever.
+					for range oc.monChan {
+					}
 					return
 				}
 			}
